@@ -25,7 +25,7 @@ from vlib.runner import exc_sig
 ID = 'C19'
 RULE = ('history: 2..14 operations over one shell attached to a ledger with four query directives; non-trivial = at least two '
         'effective setting changes followed by a statement whose output depends on them, or a .run followed by a typed '
-        'statement. Distinct by hash of the operation list. cli: all 24 option subsets x 3 queries.')
+        'statement. Distinct by hash of the operation list. cli: all 24 option subsets x 6 command-line statements (3 of them `.run NAME`) on a ledger with load errors.')
 ASSUMPTIONS = ['batch (non-interactive) mode only; pager and readline are not exercised',
                'a statement that fails to parse or compile may propagate a ProgrammingError out of onecmd (the interactive '
                'loop renders it); it must leave the settings unchanged',
@@ -270,7 +270,9 @@ CLI_LEDGER = LEDGER + '''
   Assets:Nope     2.00 USD
 '''
 CLI_QUERIES = ['SELECT account, sum(position) AS s GROUP BY account ORDER BY account',
-               'SELECT date, narration WHERE number > 1000000', 'BALANCES AT cost']
+               'SELECT date, narration WHERE number > 1000000', 'BALANCES AT cost',
+               # named queries of a ledger with load errors, with and without -q
+               '.run nofrom', '.run byaccount', '.run dateless']
 
 
 def prop_cli(sh, case):
@@ -305,7 +307,7 @@ def prop_cli(sh, case):
                             if result.exit_code != 0 or result.exception:
                                 fails.append(('cli:fails', f'{label}: exit {result.exit_code} {result.exception!r}'))
                                 continue
-                            cursor = conn.execute(query)
+                            cursor = conn.execute(TYPED[query[5:]] if query.startswith('.run ') else query)
                             desc, rows = cursor.description, cursor.fetchall()
                             dcontext = conn.options['dcontext']
                             if m:
@@ -321,6 +323,9 @@ def prop_cli(sh, case):
                             stdout = result.stdout
                             produced = stdout
                             if o:
+                                if not os.path.exists(outpath):
+                                    fails.append(('cli:-o-writes-no-file', f'{label}: stdout {stdout[:200]!r} stderr {result.stderr[:200]!r}'))
+                                    continue
                                 with open(outpath) as f:
                                     produced = f.read()
                                 os.unlink(outpath)
